@@ -6,7 +6,7 @@ From YV Require Import Gen.PatConsts Pat.Syntax Pat.Sem Pat.Matcher Pat.MatcherP
   Pat.Modifiers Pat.ModifiersProofs Pat.MatchList Pat.MatchListProofs
   Pat.C01Check Pat.C01CheckProofs Pat.Base64 Pat.Base64Proofs Pat.Chain Pat.ChainProofs
   Pat.Atoms Pat.AtomsProofs Pat.Pipeline Pat.PipelineProofs Pat.PipelineB64Proofs
-  Pat.ChainRun Pat.ChainRunProofs Pat.ChainCompleteProofs.
+  Pat.ChainRun Pat.ChainRunProofs Pat.ChainCompleteProofs Pat.PipelineB64CompleteProofs.
 Import ListNotations.
 
 (* ---- R |= S : the reference matcher ------------------------------------ *)
@@ -371,3 +371,17 @@ Theorem base64_wide_pad_inside_window_accepted :
     sp_match (mkSP (KBase64 lit p alpha true) (mkF false false false false)) (0, 0)%N d s = None.
 Proof. exact pipeline_base64_sound_wide_refuted. Qed.
 Print Assumptions base64_wide_pad_inside_window_accepted.
+
+(* Base64* completeness (the statement left open before), with the side conditions it
+   needs -- a proper alphabet without '=' (checked on the dumped alphabets in K stream
+   (d)): every occurrence whose window is a whole number of 4-character groups is
+   found through an atom and accepted by verify_base64, both encodings *)
+Theorem base64_pipeline_complete : forall lit d p alpha wide atoms s,
+  alphabet_ok alpha -> ~ In 61%N alpha -> p <= 2 -> lit <> [] ->
+  let sp := mkSP (KBase64 lit p alpha wide) (mkF false false false false) in
+  atoms_ok sp (0, 0)%N atoms = true ->
+  b64_occ_at alpha wide lit p ((3 - (p + length lit) mod 3) mod 3) d s (core_len p (length lit) * unit_of wide) = true ->
+  exists a pos, In a atoms /\ atom_at a d pos = true /\
+                handle_atom_match sp a pos d = Some (s, s + core_len p (length lit) * unit_of wide, None).
+Proof. exact pipeline_base64_complete_partial. Qed.
+Print Assumptions base64_pipeline_complete.
